@@ -138,6 +138,7 @@ def run(ctx):
                                 got = [e for e in arr if isinstance(e, dict) and e.get('target') == '%s:22' % ip]
                                 if not got or got[0] != json.loads(sout):
                                     fail('healthy_target_lost_or_changed', dict(inp, target=n), got[:1], 'the single-target JSON')
+    rate_fleet_stage(ctx, fail, cov)
     model = ctx.driver(lines) if ctx.driver_ok else []
     for line, m, (want, inp) in zip(lines, model, expect):
         if m.get('ok') != want:
@@ -148,10 +149,87 @@ def run(ctx):
                             'the per-target status used for the expected exit status is that of a single-target run of the same fake server'],
             'observations': ['framing errors (bad block size / bad length) are printed by the packet reader straight to stdout, ahead of the (then empty) block of that target']}
 
+RATE_NOTE = '(nfo) Potentially insufficient connection throttling detected'
+
+
+def _strip_rate(text):
+    return '\n'.join(l for l in text.split('\n') if not l.startswith(RATE_NOTE))
+
+
+def judge_fleet(inp, r, fail):
+    """one isolated multi-target run with the connection-rate check enabled (seed C08-7: a socket-level error inside one target's rate check must
+    not cost the other targets their results)"""
+    lst, threads, extra = inp['targets'], inp['threads'], inp['args']
+    if r.get('hang'):
+        fail('run_does_not_terminate', inp, {'stdout_so_far': (r['partial'].get('out') or r.get('stdout_tail') or '')[-400:]}, 'the run ends with one result block per target')
+        return
+    code, out, singles = r['code'], r['out'], r['singles']
+    want_code = 0
+    for sc, _ in singles:
+        sc = sc if sc in RANK else -1
+        if RANK.index(sc) > RANK.index(want_code):
+            want_code = sc
+    if code != want_code:
+        fail('exit_status_not_highest_ranked', inp, {'exit': code, 'single_target_statuses': [s_[0] for s_ in singles]}, want_code)
+    if extra:
+        if all(sc in (0, 2, 3) for sc, _ in singles):
+            try:
+                arr = json.loads(out)
+                ok = isinstance(arr, list) and len(arr) == len(lst)
+            except Exception:
+                ok = False
+            if not ok:
+                fail('json_array_broken', inp, out[:300], 'one JSON array with %d elements' % len(lst))
+        return
+    blocks = mc.split_text_blocks(out)
+    if len(blocks) != len(lst):
+        fail('block_count', inp, {'blocks': len(blocks), 'stdout': out[:400]}, len(lst))
+        return
+    by = {}
+    for b in blocks:
+        by.setdefault(mc.block_target(b), mc.normalise_block(b))
+    for i, (n, (sc, sout)) in enumerate(zip(lst, singles)):
+        if sc in (0, 2, 3):
+            got, want = by.get(mc.ip_of(i)), mc.normalise_block(sout)
+            if threads > 1 and got is not None:
+                got, want = _strip_rate(got), _strip_rate(want)     # the shared scripted clock makes the measured rate schedule-dependent
+            if got != want:
+                fail('healthy_target_lost_or_changed', dict(inp, target=n), (got or '<no block>')[:300], want[:300])
+
+
+def rate_fleet_cases(ctx):
+    r = ctx.rng
+    healthy = ['rateok', 'A', 'G', 'H']
+    faults = ['rateunreach', 'ratenetdown', 'ratereset', 'raterefused', 'ratenobufs', 'probeunreach', 'hsunreach', 'refused', 'silent']
+    cases = [(['rateunreach', 'rateok'], 1, []), (['rateok', 'rateunreach', 'A'], 1, []), (['ratenetdown', 'rateok', 'G'], 2, []), (['rateunreach', 'rateunreach', 'rateok'], 1, []),
+             (['rateok', 'rateok'], 1, ['-j']), (['raterefused', 'rateok', 'ratenobufs', 'H'], 1, [])]
+    for _ in range(ctx.scale(10, 200)):
+        n = r.choice([2, 3, 4])
+        lst = [r.choice(faults) if r.random() < 0.5 else r.choice(healthy) for _ in range(n)]
+        cases.append((lst, r.choice([1, 1, 2, 3]), r.choice([[], [], ['-j']])))
+    return cases
+
+
+def rate_fleet_stage(ctx, fail, cov):
+    cases = rate_fleet_cases(ctx)
+    res = mc.isolated_fleets([(lst, th, ex, True) for lst, th, ex in cases])
+    for (lst, th, ex), r in zip(cases, res):
+        inp = {'stage': 'rate-fleet', 'targets': lst, 'threads': th, 'args': ex}
+        cov.add(('rate-fleet', tuple(lst), th, tuple(ex)), True, tags=['rate-check-enabled', 'threads-%d' % th] + ['fault:' + n for n in set(lst)])
+        judge_fleet(inp, r, fail)
+
 
 def replay(obj):
     f = obj.get('failure', obj)
     inp = f['input']
+    if inp.get('stage') == 'rate-fleet':
+        fails = []
+        r = mc.isolated_fleets([(inp['targets'], inp['threads'], inp['args'], True)])[0]
+        judge_fleet({k: v for k, v in inp.items() if k != 'target'}, r, lambda kind, i_, o_, e_: fails.append((kind, o_, e_)))
+        print('multi-target run with the rate check enabled:', 'does not terminate' if r.get('hang') else 'exit %s' % r.get('code'))
+        for k_, o_, e_ in fails:
+            print('FAILS', k_, 'observed', str(o_)[:400], 'expected', str(e_)[:200])
+        return 1 if fails else 0
     healthy = {k: v for k, v in mc.arch_servers().items() if k in ('A', 'C', 'G', 'H')}
     servers = dict(healthy)
     servers.update(mc.fail_servers())
